@@ -357,8 +357,12 @@ def main(chk: Check):
         if why:
             # inside the known class the failure is the known finding only if the implication reading
             # explains the result completely
-            meta["known"] = (in_known_class_cond_member(ts)
-                             and oracle(ts, iuse, ft, ff, pt, sols, pms=impl_sem) is None)
+            meta["known"] = False
+            if in_known_class_cond_member(ts):
+                why2 = oracle(ts, iuse, ft, ff, pt, sols, pms=impl_sem)
+                meta["known"] = why2 is None
+                if why2:
+                    why = why2 + " (even under the implication reading, i.e. beyond the known finding)"
             py_bad.append((why, meta, res))
         if not isinstance(sols, Err) and len(sols) >= 2:
             free = [k for k in set(iuse) if k not in ft and k not in ff]
